@@ -11,7 +11,7 @@ def one(seed):
         subprocess.run('git -C /repo archive HEAD | tar -x -C %s && cd %s && git init -q . && git apply /verif/seeded/%s/patch.diff' % (d, d, seed), shell=True, check=True, capture_output=True)
         own = seed.split('-')[0]
         order = [own] + [c for c in ALL if c != own]
-        only = sys.argv[2].split(',') if len(sys.argv) > 2 else order
+        only = ([own] if sys.argv[2] == 'own' else sys.argv[2].split(',')) if len(sys.argv) > 2 else order
         for c in order:
             if c not in only:
                 continue
